@@ -369,6 +369,9 @@ TRIAGE = [
     ("pool.py", "not return_exceptions", "gather_and_close: re-raising a *spawner's* exception - spawners never fail inside the modelled domain (theorem C12: spawners never fail; C04: never end with an exception), so the branch is dead there"),
     ("pool.py", "isinstance(result, Exception)", "same dead branch (a spawner's result is never an exception in the domain)"),
     ("pool.py", "raise result", "same dead branch"),
+    ("pool.py", "1", "default `num=1` of the internal coroutine _apply_spawner: apply() always passes num explicitly"),
+    ("control/parser.py", "subparser_kwargs.setdefault(\"description\"", "settable property: only the generic sentence 'Get/set the ... property' disappears from `<prop> -h`; the getter's and the setter's own descriptions are still shown (that is what the C16 check requires)"),
+    ("control/parser.py", "len(args) == 1", "union of several non-None types (`int | str | None`): not classifiable, outside `wf_surface`"),
     ("pool.py", "break", "stop(): `continue` instead of `break` only keeps iterating without appending (i >= num stays true): equivalent"),
     ("internals/helpers.py", "0", "default of star_function(arg_stars=0): every caller passes it explicitly"),
     ("internals/helpers.py", "1", "get_first_doc_line: split(maxsplit=2)[0] equals split(maxsplit=1)[0]: equivalent"),
